@@ -98,23 +98,61 @@ def is_jtmp(path):
     return isinstance(path, str) and path.endswith(".tmp") and not path.endswith(".meta.tmp")
 
 
+ROLE_SUFFIX = (("journal", ""), ("meta", ".meta"), ("metatmp", ".meta.tmp"), ("jtmp", ".tmp"))
+ROLE_INDEX = {"journal": 0, "meta": 1, "metatmp": 2, "jtmp": 3}      # position in a directory image
+MMAP_KINDS = ("R", "S", "JZ", "JS")
+
+
+def is_fs_event(p):
+    """a file-system call (as opposed to a store / resize through a mapping)"""
+    return p[0] not in MMAP_KINDS
+
+
 class Recorder(object):
     """Primitive writes in program order, each with its target file:
        journal file      ("R", n) ("S", off, bytes)
        <journal>.meta    ("TC",) ("TW", data) ("TM",)
-       <journal>.tmp     ("JR",) ("JC",) ("JW", data) ("JZ", n) ("JS", off, bytes) ("JM",)"""
+       <journal>.tmp     ("JR",) ("JC",) ("JW", data) ("JZ", n) ("JS", off, bytes) ("JM",)
+       any other file-system-changing call the module makes, by the roles of its path arguments
+       (journal | meta | metatmp | jtmp | other:<basename>):
+                         ("FS", "remove" | "truncate", role[, n])   ("FS", "rename" | "copy", src, dst)
+                         ("FS", "create" | "append-open", role)     ("FS", "write" | "append", role, data)
+    `fs_hook(n, "before"|"after", prim)` is called around every file-system call event (everything
+    except R/S/JZ/JS), n = its index within the operation; `fs_kill = (n, "before"|"after")` kills there."""
 
-    def __init__(self):
+    def __init__(self, base=None):
+        self.base = base        # path of the journal file: roles of other paths are relative to it
         self.log = []
         self.kill = None
+        self.fs_kill = None
+        self.fs_hook = None
+        self.fs_count = 0
         self.dead = False
         self.maps = []          # real mmap objects created through the shim
         self.files = []         # real file objects opened 'r+b' by ResizableFile
         self.flushes = 0        # mmap.flush() calls seen (not forwarded, see MmapProxy.flush)
 
-    def begin(self, kill=None):
+    def begin(self, kill=None, fs_kill=None, fs_hook=None):
         self.log = []
         self.kill = kill
+        self.fs_kill = fs_kill
+        self.fs_hook = fs_hook
+        self.fs_count = 0
+
+    def role(self, path):
+        try:
+            path = os.fspath(path)
+        except TypeError:
+            return "other:?"
+        if isinstance(path, bytes):
+            path = path.decode("utf-8", "replace")
+        b = os.path.basename(path)
+        if self.base is not None:
+            bb = os.path.basename(self.base)
+            for role, sfx in ROLE_SUFFIX:
+                if b == bb + sfx:
+                    return role
+        return "other:" + b
 
     def _due(self):
         if self.dead:
@@ -125,12 +163,28 @@ class Recorder(object):
         self.dead = True
         raise Killed()
 
-    def atomic(self, kind, action, *args):
-        """a primitive that happens entirely or not at all"""
+    def _fs_before(self, prim):
+        if self.fs_kill == (self.fs_count, "before"):
+            self._die()
+        if self.fs_hook is not None:
+            self.fs_hook(self.fs_count, "before", prim)
+
+    def _fs_after(self, prim):
+        n = self.fs_count
+        self.fs_count += 1
+        if self.fs_hook is not None:
+            self.fs_hook(n, "after", prim)
+        if self.fs_kill == (n, "after"):
+            self._die()
+
+    def atomic(self, prim, action, *args, **kw):
+        """a file-system call that happens entirely or not at all"""
         if self._due():
             self._die()
-        r = action(*args)
-        self.log.append((kind,))
+        self._fs_before(prim)
+        r = action(*args, **kw)
+        self.log.append(prim)
+        self._fs_after(prim)
         return r
 
     def resize(self, mm, n, jt):
@@ -150,17 +204,45 @@ class Recorder(object):
         mm[start:start + len(values)] = values          # raises IndexError when it does not fit (D8)
         self.log.append(("JS" if jt else "S", start, values))
 
-    def file_write(self, kind, f, data):
-        """content written to a freshly created file and flushed (TW: .meta.tmp, JW: <journal>.tmp)"""
+    def file_write(self, head, f, data):
+        """content written to a file opened for writing and flushed (TW: .meta.tmp, JW: <journal>.tmp,
+        ("FS", "write", role) elsewhere); can be torn: a prefix"""
+        prim = tuple(head) + (bytes(data),)
         if self._due():
             t = min(self.kill[1], len(data))
             if t > 0:
                 f.write(data[:t])
             f.flush()
             self._die()
+        self._fs_before(prim)
         f.write(data)
         f.flush()
-        self.log.append((kind, bytes(data)))
+        self.log.append(prim)
+        self._fs_after(prim)
+
+    # -- classification of file-system calls -------------------------------------------------------
+    def call_remove(self, name, fn, path, *a, **k):
+        role = self.role(path)
+        prim = ("JR",) if role == "jtmp" else ("FS", "remove", role)
+        return self.atomic(prim, fn, path, *a, **k)
+
+    def call_move(self, name, fn, src, dst, *a, **k):
+        rs, rd = self.role(src), self.role(dst)
+        if (rs, rd) == ("jtmp", "journal"):
+            prim = ("JM",)
+        elif (rs, rd) == ("metatmp", "meta"):
+            prim = ("TM",)
+        else:
+            prim = ("FS", "rename", rs, rd)
+        return self.atomic(prim, fn, src, dst, *a, **k)
+
+    def call_copy(self, name, fn, src, dst, *a, **k):
+        rs = self.role(src) if isinstance(src, (str, bytes)) or hasattr(src, "__fspath__") else "other:<fileobj>"
+        rd = self.role(dst) if isinstance(dst, (str, bytes)) or hasattr(dst, "__fspath__") else "other:<fileobj>"
+        return self.atomic(("FS", "copy", rs, rd), fn, src, dst, *a, **k)
+
+    def call_truncate(self, name, fn, path, n, *a, **k):
+        return self.atomic(("FS", "truncate", self.role(path), n), fn, path, n, *a, **k)
 
 
 class MmapProxy(object):
@@ -220,21 +302,31 @@ class _MmapShim(object):
             target = os.readlink("/proc/self/fd/%d" % fileno)
         except OSError:
             target = ""
-        return MmapProxy(self._rec, mm, is_jtmp(target))
+        return MmapProxy(self._rec, mm, self._rec.role(target) == "jtmp" if self._rec.base else is_jtmp(target))
 
     def __getattr__(self, name):
         return getattr(_real_mmap, name)
 
 
 class _NewFile(object):
-    """a file opened 'wb' by the code under test whose creation and content are primitives:
-    `.meta.tmp` (TC at open, TW at flush) and `<journal>.tmp` (JC at open, JW when the written
-    content reaches the file: flush or close).  write() is buffered until then."""
+    """a file opened for writing by the code under test: its creation / truncation is one file-system
+    call event, the content reaching the file (flush or close) a second one.  `.meta.tmp`: TC, TW;
+    `<journal>.tmp`: JC, JW; any other path: ("FS", "create", role), ("FS", "write", role, data);
+    append mode: ("FS", "append-open", role), ("FS", "append", role, data).  write() is buffered."""
 
-    def __init__(self, rec, path, kinds):
+    def __init__(self, rec, path, mode, a, k):
         self._rec = rec
-        self._kinds = kinds
-        self._f = rec.atomic(kinds[0], builtins.open, path, "wb")
+        role = rec.role(path)
+        if "a" in mode:
+            heads = (("FS", "append-open", role), ("FS", "append", role))
+        elif role == "metatmp":
+            heads = (("TC",), ("TW",))
+        elif role == "jtmp":
+            heads = (("JC",), ("JW",))
+        else:
+            heads = (("FS", "create", role), ("FS", "write", role))
+        self._whead = heads[1]
+        self._f = rec.atomic(heads[0], builtins.open, path, mode, *a, **k)
         self._buf = b""
 
     def write(self, data):
@@ -244,7 +336,7 @@ class _NewFile(object):
     def flush(self):
         if self._buf:
             data, self._buf = self._buf, b""
-            self._rec.file_write(self._kinds[1], self._f, data)
+            self._rec.file_write(self._whead, self._f, data)
 
     def close(self):
         try:
@@ -260,36 +352,60 @@ class _NewFile(object):
         self.close()
         return False
 
+    def __getattr__(self, name):
+        return getattr(self._f, name)
+
 
 class _ShutilProxy(object):
+    """stands in for module `shutil`: move / copy* are file-system call events"""
+
     def __init__(self, rec):
         self._rec = rec
 
     def move(self, src, dst, *a, **k):
-        if isinstance(src, str) and src.endswith(".meta.tmp"):
-            self._rec.atomic("TM", _real_shutil.move, src, dst)
-        elif is_jtmp(src):
-            self._rec.atomic("JM", _real_shutil.move, src, dst)
-        else:
-            _real_shutil.move(src, dst)
+        self._rec.call_move("move", _real_shutil.move, src, dst, *a, **k)
         return dst
+
+    def copy(self, src, dst, *a, **k):
+        return self._rec.call_copy("copy", _real_shutil.copy, src, dst, *a, **k)
+
+    def copy2(self, src, dst, *a, **k):
+        return self._rec.call_copy("copy2", _real_shutil.copy2, src, dst, *a, **k)
+
+    def copyfile(self, src, dst, *a, **k):
+        return self._rec.call_copy("copyfile", _real_shutil.copyfile, src, dst, *a, **k)
+
+    def copyfileobj(self, src, dst, *a, **k):
+        return self._rec.call_copy("copyfileobj", _real_shutil.copyfileobj, src, dst, *a, **k)
 
     def __getattr__(self, name):
         return getattr(_real_shutil, name)
 
 
 class _OsProxy(object):
-    """stands in for module `os` inside pysyncobj.journal: os.remove of `<journal>.tmp` is a primitive"""
+    """stands in for module `os`: remove / unlink / rename / replace / renames / truncate are
+    file-system call events"""
 
     def __init__(self, rec):
         self._rec = rec
 
     def remove(self, path, *a, **k):
-        if is_jtmp(path):
-            return self._rec.atomic("JR", os.remove, path)
-        return os.remove(path, *a, **k)
+        return self._rec.call_remove("remove", os.remove, path, *a, **k)
 
-    unlink = remove
+    def unlink(self, path, *a, **k):
+        return self._rec.call_remove("unlink", os.unlink, path, *a, **k)
+
+    def rename(self, src, dst, *a, **k):
+        return self._rec.call_move("rename", os.rename, src, dst, *a, **k)
+
+    def replace(self, src, dst, *a, **k):
+        return self._rec.call_move("replace", os.replace, src, dst, *a, **k)
+
+    def renames(self, src, dst):
+        return self._rec.call_move("renames", os.renames, src, dst)
+
+    def truncate(self, path, n):
+        return self._rec.call_truncate("truncate", os.truncate, path, n)
 
     def __getattr__(self, name):
         return getattr(os, name)
@@ -309,13 +425,11 @@ class patched(object):
         self.old = (jm.shutil, jm.mmap, jm.os)
 
         def _open(path, mode="r", *a, **k):
-            if isinstance(path, str) and mode == "wb":
-                if path.endswith(".meta.tmp"):
-                    return _NewFile(rec, path, ("TC", "TW"))
-                if is_jtmp(path):
-                    return _NewFile(rec, path, ("JC", "JW"))
+            if isinstance(path, (str, bytes)) or hasattr(path, "__fspath__"):
+                if any(c in mode for c in "wax"):
+                    return _NewFile(rec, path, mode, a, k)     # creation / truncation / append
             f = builtins.open(path, mode, *a, **k)
-            if mode == "r+b":
+            if "+" in mode:                                    # 'r+b': the descriptor behind a mapping
                 rec.files.append(f)
             return f
 
@@ -398,6 +512,12 @@ def prim_str(p, jm):
         return "TW" + meta_value_str(jm, p[1])
     if p[0] == "JW":
         return "JW%d:%d" % (len(p[1]), adler(p[1]))
+    if p[0] == "FS":
+        if p[1] in ("rename", "copy"):
+            return "FS:%s:%s->%s" % (p[1], p[2], p[3])
+        if p[1] in ("write", "append"):
+            return "FS:%s:%s:%d:%d" % (p[1], p[2], len(p[3]), adler(p[3]))
+        return "FS:" + ":".join(str(x) for x in p[1:])
     return p[0]
 
 
@@ -421,16 +541,18 @@ def meta_value_str(jm, data):
 class Real(object):
     def __init__(self, jm, path, factory="FileJournal", kill=None):
         self.jm, self.path, self.factory = jm, path, factory
-        self.rec = Recorder()
+        self.rec = Recorder(base=path)
         self.rec.begin(kill)
         with patched(jm, self.rec):
             self.j = jm.createJournal(path) if factory == "createJournal" else jm.FileJournal(path)
         self.open_prims = list(self.rec.log)
 
-    def apply(self, op, kill=None):
-        """run one op (not reopen) on the real object; returns the recorded primitives"""
+    def apply(self, op, kill=None, fs_kill=None, fs_hook=None):
+        """run one op (not reopen) on the real object; returns the recorded primitives.
+        kill = (k, t): die when primitive k is due (t bytes of it done); fs_kill = (n, "before"|"after"):
+        die right before / after file-system call event n; fs_hook(n, when, prim): called around each."""
         j, k = self.j, op[0]
-        self.rec.begin(kill)
+        self.rec.begin(kill, fs_kill, fs_hook)
         with patched(self.jm, self.rec):
             if k == "add":
                 j.add(cmd_of(op[3]), op[1], op[2])
@@ -575,23 +697,25 @@ def disk_str(jm, path, data=None):
 
 def apply_prims(snap, prims, k, t):
     """crash image (A): the snapshot with the first k recorded primitives applied, plus the first t
-    bytes of primitive k when that one can be torn"""
-    f = bytearray(snap[0])
-    meta, tmp = snap[1], snap[2]
-    jt = None if snap[3] is None else bytearray(snap[3])
+    bytes of primitive k when that one can be torn.  A file that does not exist is None."""
+    d = [None if x is None else bytearray(x) for x in snap]      # journal, meta, metatmp, jtmp
+    J, M, T, JT = 0, 1, 2, 3
+
+    def resize(i, n):
+        g = d[i]
+        if g is not None:
+            if n >= len(g):
+                g.extend(b"\0" * (n - len(g)))
+            else:
+                del g[n:]
 
     def one(p, torn=None):
-        nonlocal meta, tmp, f, jt
-        if p[0] in ("R", "JZ"):
-            g = f if p[0] == "R" else jt
-            if torn is None and g is not None:
-                n = p[1]
-                if n >= len(g):
-                    g.extend(b"\0" * (n - len(g)))
-                else:
-                    del g[n:]
-        elif p[0] in ("S", "JS"):
-            g = f if p[0] == "S" else jt
+        kind = p[0]
+        if kind in ("R", "JZ"):
+            if torn is None:
+                resize(J if kind == "R" else JT, p[1])
+        elif kind in ("S", "JS"):
+            g = d[J if kind == "S" else JT]
             off, bs = p[1], p[2]
             if torn is not None:
                 if atomic_store(off, len(bs)):
@@ -599,31 +723,54 @@ def apply_prims(snap, prims, k, t):
                 bs = bs[:torn]
             if g is not None:
                 g[off:off + len(bs)] = bs
-        elif p[0] == "JR":
-            if torn is None:
-                jt = None
-        elif p[0] == "JC":
-            if torn is None:
-                jt = bytearray()
-        elif p[0] == "JW":
-            jt = bytearray(p[1] if torn is None else p[1][:torn])
-        elif p[0] == "JM":
-            if torn is None and jt is not None:
-                f, jt = jt, None
-        elif p[0] == "TC":
-            if torn is None:
-                tmp = b""
-        elif p[0] == "TW":
-            tmp = p[1] if torn is None else p[1][:torn]
-        elif p[0] == "TM":
-            if torn is None and tmp is not None:
-                meta, tmp = tmp, None
+        elif kind in ("JW", "TW"):
+            d[JT if kind == "JW" else T] = bytearray(p[1] if torn is None else p[1][:torn])
+        elif kind == "FS" and p[1] in ("write", "append"):
+            i = ROLE_INDEX.get(p[2])
+            if i is not None:
+                data = p[3] if torn is None else p[3][:torn]
+                d[i] = bytearray(data) if p[1] == "write" else (d[i] or bytearray()) + data
+        elif torn is not None:
+            return                                   # everything below is atomic
+        elif kind == "TC":
+            d[T] = bytearray()
+        elif kind == "TM":
+            if d[T] is not None:
+                d[M], d[T] = d[T], None
+        elif kind == "JR":
+            d[JT] = None
+        elif kind == "JC":
+            d[JT] = bytearray()
+        elif kind == "JM":
+            if d[JT] is not None:
+                d[J], d[JT] = d[JT], None
+        elif kind == "FS":
+            i = ROLE_INDEX.get(p[2])
+            if p[1] == "remove":
+                if i is not None:
+                    d[i] = None
+            elif p[1] == "create":
+                if i is not None:
+                    d[i] = bytearray()
+            elif p[1] == "append-open":
+                if i is not None and d[i] is None:
+                    d[i] = bytearray()
+            elif p[1] == "truncate":
+                if i is not None:
+                    resize(i, p[3])
+            elif p[1] in ("rename", "copy"):
+                jdst = ROLE_INDEX.get(p[3])
+                src = d[i] if i is not None else None
+                if jdst is not None and src is not None:
+                    d[jdst] = bytearray(src)
+                if p[1] == "rename" and i is not None:
+                    d[i] = None
 
     for p in prims[:k]:
         one(p)
     if k < len(prims):
         one(prims[k], torn=t)
-    return (bytes(f), meta, tmp, None if jt is None else bytes(jt))
+    return tuple(None if x is None else bytes(x) for x in d)
 
 
 def prim_len(p):
@@ -632,6 +779,8 @@ def prim_len(p):
         return len(p[2])
     if p[0] in ("TW", "JW"):
         return len(p[1])
+    if p[0] == "FS" and p[1] in ("write", "append"):
+        return len(p[3])
     return 0
 
 
@@ -670,6 +819,12 @@ def open_image(jm, path, img):
         return {"err": type(e).__name__, "disk": disk}
     return {"real": r, "len": len(r.j), "cur": r.cur(), "ci": r.j.getRaftCommitIndex(), "tv": r.tv(),
             "ents": r.entries(), "prims": r.open_prims, "disk": disk}
+
+
+def is_creation(prims):
+    """what creating a fresh journal does: open 'wb', write the 40-byte header, map, resize to 1024"""
+    return (len(prims) == 3 and prims[0] == ("FS", "create", "journal") and prims[1][:3] == ("FS", "write", "journal")
+            and len(prims[1][3]) == FIRST and prims[2] == ("R", INITIAL_SIZE))
 
 
 def dry_prims(jm, scratch, real, op):
@@ -1116,9 +1271,9 @@ def run_case(jm, model, path, source, factory="FileJournal", cov=None, rng=None,
             reply = model.new()
             # creation itself (write the 40-byte header file, resize to 1024) is not a modelled
             # operation: the model starts from the finished 1024-byte file and lists no primitives
-            if real.open_prims != [("R", INITIAL_SIZE)]:
-                disagree("primitives of creating a fresh journal", "R%d (expected by the harness)" % INITIAL_SIZE,
-                         prims_str(real.open_prims, jm))
+            if not is_creation(real.open_prims):
+                disagree("primitives of creating a fresh journal", "FS:create:journal,FS:write:journal:40:..,R%d "
+                         "(expected by the harness)" % INITIAL_SIZE, prims_str(real.open_prims, jm))
             compare(reply + " P -", [], True, True)
         monitor("open")
         while res["disagreement"] is None and res["violation"] is None:
